@@ -305,7 +305,8 @@ Section Canon.
     rewrite canon_sub_eq. cbn [trim_tips]. f_equal.
     - simpl length. rewrite length_ckids.
       destruct (kids_of sl) as [|k r]; [|reflexivity]. simpl.
-      unfold tip_name_ok in Hname. apply andb_true_iff in Hname. destruct Hname as [_ Hb].
+      unfold tip_name_ok in Hname. apply andb_true_iff in Hname. destruct Hname as [Hname _].
+      apply andb_true_iff in Hname. destruct Hname as [_ Hb].
       unfold no_blank_around in Hb. apply String.eqb_eq in Hb. exact Hb.
     - simpl. f_equal. clear Hname.
       induction (kids_of sl) as [|[e' ch] r IHr]; [reflexivity|].
